@@ -23,7 +23,7 @@ import (
 	"verif.local/harness/sto"
 )
 
-const rule = "many short concurrent histories: per backend (11 backends incl. files over a yielding VFS and diskpacked over yielding on-disk indexes, 6 compositions) 2-16 client goroutines x 30-60 calls (receive/fetch/subfetch/stat/batched stat/enumerate/remove/multi-remove) over 6-10 shared blobs plus blobs only their owner writes (write, then read by the same client), with seeded yields/sleeps at the harness-owned lower layers; replica with early acknowledgement runs a directed own-blob program with one slow replica; plus index+corpus histories (one writer per permanode, delete claims racing their targets, files/directories/second-signer blobs delivered out of order with the dependency lookup missing right before the dependency is indexed, readers under RLock and through the search handler's entry points); every key's call/return history is checked with porcupine against a register, fetched bytes against the content, the quiescent index against a sequential reference delivery, and every race-detector report with a perkeep frame is a violation; distinct = (backend, per-key interleaving shape) of a key on which a write overlapped another operation"
+const rule = "many short concurrent histories: per backend (11 backends incl. files over a yielding VFS and diskpacked over yielding on-disk indexes, 6 compositions) 2-16 client goroutines x 30-60 calls (receive/fetch/subfetch/stat/batched stat/enumerate/remove/multi-remove) over 6-10 shared blobs plus blobs only their owner writes (write, then read by the same client), with seeded yields/sleeps at the harness-owned lower layers; replica with early acknowledgement runs a directed own-blob program with one slow replica; files in the sync-queue layout (root queue-…: enumerations remove empty shard directories in the background while receives re-create them, with RemoveAll- and rmdir-style VFS) gets extra enumerations and pauses around the directory creation; proxycache over harness-owned cache and origin stores has its own blobs pre-loaded below the cache, the owner's fetch (cache miss) is directly followed by its remove and reads while the cache fill is held at the cache store's boundary; plus index+corpus histories (one writer per permanode, delete claims racing their targets, files/directories/second-signer blobs delivered out of order with the dependency lookup missing right before the dependency is indexed, readers under RLock and through the search handler's entry points; then doomed permanodes whose delete claim arrives first, the background re-indexing of the claim held while the sorted permanode listings and sorted queries are read, and read again once Corpus.IsDeleted says true); every key's call/return history is checked with porcupine against a register, fetched bytes against the content, the quiescent index rows and sorted permanode listings against a sequential reference delivery, and every race-detector report with a perkeep frame is a violation; distinct = (backend, per-key interleaving shape) of a key on which a write overlapped another operation"
 
 func sp(kind string, p map[string]any, kids ...*sto.Spec) *sto.Spec {
 	return &sto.Spec{Kind: kind, P: p, Kids: kids}
@@ -74,8 +74,8 @@ func plans() []plan {
 		// sync-queue layout of files/localdisk (root "queue-…"): an enumeration schedules the removal of every
 		// empty shard directory it meets, receives re-create them; with OSFS's RemoveDir (RemoveAll) and with
 		// rmdir(2) semantics (what the sftp VFS does)
-		{spec: sp("files-yieldvfs", map[string]any{"root": "queue-c14"}), mode: "queue", weight: 1, label: "files-queue"},
-		{spec: sp("files-yieldvfs", map[string]any{"root": "queue-c14", "rmdir": true}), mode: "queue", weight: 3, label: "files-queue-rmdir"},
+		{spec: sp("files-yieldvfs", map[string]any{"root": "queue-c14"}), mode: "queue", weight: 2, label: "files-queue"},
+		{spec: sp("files-yieldvfs", map[string]any{"root": "queue-c14", "rmdir": true}), mode: "queue", weight: 2, label: "files-queue-rmdir"},
 		// proxycache whose cache store is harness-owned too: own blobs pre-loaded on the origin only, the
 		// owner's fetch (cache miss) is directly followed by its remove, the cache fill is held (jobSpec.Mode cachemiss)
 		{spec: sp("proxycache-local", map[string]any{"cacheBytes": 300}), mode: "cachemiss", weight: 2, label: "proxycache[memory]"},
@@ -177,6 +177,9 @@ func run(r *ev.Run) {
 	r.Assume("own blobs: written by one client only, one call at a time; their histories are judged like every other key, under the class nonlinearizable-own-blob (no write-write race can explain an anomaly there)")
 	r.Assume("a blob whose index dependencies (file: its chunks; directory: its static-set; signed blob: the signer's public key; delete claim: its target) were all acknowledged before its delivery started is indexed synchronously (a definite write); otherwise it is indexed asynchronously (open-ended write) and must be indexed at quiescence, when the index rows must equal those of a sequential delivery of the same blobs in dependency order")
 	r.Assume("index readers hold Index.RLock around corpus/index reads, as pkg/search does; the search handler's entry points are called without any harness lock; a delete claim delivered before (or while) its target is delivered is indexed asynchronously, so its effect is an open-ended write, checked for presence after quiescence")
+	r.Assume("the sorted permanode listings (Corpus.EnumeratePermanodesCreated / LastModified, sorted permanode queries) list a permanode iff it is indexed, has a claim and Corpus.IsDeleted says false: per doomed permanode one register whose reads are the listings and IsDeleted = true (read as 'not listed'); the merge of an out-of-order delete claim is an open-ended write, checked explicitly after quiescence")
+	r.Assume("sync-queue layout: the background removal of an empty shard directory is not a client call; no receive may fail and no acknowledged blob may disappear because of it (both VFS flavours of RemoveDir: OSFS and rmdir(2) as the sftp VFS)")
+	r.Assume("proxycache cachemiss mode: the write that fills the cache for an owner's fetch is held at the cache store's ReceiveBlob until the owner's following remove returned or 4 ms passed (schedule perturbation only)")
 	r.Assume("race oracle = Go race detector reports (GORACE log_path) of the child processes; a report is judged when a perkeep frame is on either access stack; signature = innermost perkeep function of each access stack")
 	if !raceEnabled {
 		r.Inconclusive("this binary was not built with -race: the race oracle is not armed (run through ./check)")
